@@ -321,11 +321,11 @@ def floatterm(x: Any) -> Any:
 
 
 def is_sym(x: Any) -> bool:
-    return isinstance(x, (Sym, SList, SMap, SODict))
+    return isinstance(x, (Sym, SList, SMap, SODict, SSet))
 
 
 def contains_sym(x: Any, _depth: int = 0) -> bool:
-    if isinstance(x, (Sym, SList, SMap, SObj, SExc, SODict)):
+    if isinstance(x, (Sym, SList, SMap, SObj, SExc, SODict, SSet)):
         return True
     if _depth > 6:
         return False
@@ -415,6 +415,8 @@ def ite(c: Any, a: Any, b: Any) -> Any:
         return a
     if isinstance(a, tuple) and isinstance(b, tuple) and len(a) == len(b):
         return tuple(ite(c, x, y) for x, y in zip(a, b))
+    if isinstance(a, SObj) and isinstance(b, SObj) and a.cls is None and b.cls is None and a.kind == b.kind and set(a.fields) == set(b.fields):
+        return SObj(None, kind=a.kind, **{k: ite(c, a.fields[k], b.fields[k]) for k in a.fields})
     if isinstance(a, (SFloat, float)) or isinstance(b, (SFloat, float)):
         return SFloat(z3.If(ct, floatterm(a), floatterm(b)))
     if is_intlike(a) and is_intlike(b):
@@ -497,9 +499,19 @@ def truth(v: Any) -> Any:
         return SBool(v.length > 0)
     if isinstance(v, SODict):
         return SBool(v.length > 0)
+    if isinstance(v, SSet):
+        return v.nonempty()
     if isinstance(v, SMap):
         raise Unsupported("truthiness of a symbolic map")
     if isinstance(v, SOpaque):
+        if _CTX:  # an opaque *reference* whose methods are given by contract ("Kind.__bool__" / "Kind.__len__")
+            H = _CTX[-1].handlers
+            h = H.get(f"{v.kind}.__bool__")
+            if h is not None:
+                return h(_CTX[-1], v)
+            h = H.get(f"{v.kind}.__len__")
+            if h is not None:
+                return truth(h(_CTX[-1], v))
         # truthiness of an opaque value: an uninterpreted (but consistent) predicate of the value
         f = z3.Function(f"py_truthy_{v.kind}", opaque_sort(v.kind), z3.BoolSort())
         return SBool(f(v.t))
@@ -585,6 +597,28 @@ class TupleShape(Shape):
         return "Tuple(" + ",".join(map(repr, self.parts)) + ")"
 
 
+class RecShape(Shape):
+    """A record (abstract ``SObj`` of the given kind) with typed fields, e.g. an Arrow field
+    ``RecShape("Field", name=StrShape, type=OpaqueShape("ArrowType"), nullable=BoolShape)``."""
+
+    def __init__(self, kind: str, **fields: Shape) -> None:
+        self.kind, self.fields = kind, fields
+
+    def fresh(self, name: str) -> Any:
+        return SObj(None, kind=self.kind, **{k: sh.fresh(f"{name}_{k}") for k, sh in self.fields.items()})
+
+    def indexed(self, name: str) -> Callable[[Any], Any]:
+        fs = {k: sh.indexed(f"{name}_{k}") for k, sh in self.fields.items()}
+        return lambda i: SObj(None, kind=self.kind, **{k: f(i) for k, f in fs.items()})
+
+    def keyed(self, name: str, key_sort: Any) -> Callable[[Any], Any]:
+        fs = {k: sh.keyed(f"{name}_{k}", key_sort) for k, sh in self.fields.items()}
+        return lambda x: SObj(None, kind=self.kind, **{k: f(x) for k, f in fs.items()})
+
+    def __repr__(self) -> str:
+        return f"Rec({self.kind})"
+
+
 class ListShape(Shape):
     def __init__(self, elem: Shape) -> None:
         self.elem = elem
@@ -595,7 +629,8 @@ class ListShape(Shape):
         c.assume(n >= 0)
         if BOUND_K:
             c.assume(n <= BOUND_K[-1])
-        return SList(self.elem, self.elem.indexed(name), n)
+        cat = z3.String(fresh_name(name + "_cat")) if self.elem is StrShape or self.elem is BytesShape else None
+        return SList(self.elem, self.elem.indexed(name), n, cat)
 
     def __repr__(self) -> str:
         return f"List({self.elem!r})"
@@ -619,6 +654,8 @@ def shape_of(v: Any) -> Shape:
         return TupleShape(*[shape_of(e) for e in v])
     if isinstance(v, SList):
         return ListShape(v.shape)
+    if isinstance(v, SObj) and v.cls is None:
+        return RecShape(v.kind, **{k: shape_of(x) for k, x in v.fields.items()})
     raise Unsupported(f"cannot infer a havoc shape for {v!r}; give one in the loop contract")
 
 
@@ -631,10 +668,13 @@ class SList:
     """A Python list whose length is symbolic.  ``getf`` maps a z3 Int index term in
     ``[0, length)`` to the element value.  Mutable (Python list identity semantics)."""
 
-    def __init__(self, shape: Shape, getf: Callable[[Any], Any], length: Any) -> None:
+    def __init__(self, shape: Shape, getf: Callable[[Any], Any], length: Any, cat: Any = None) -> None:
         self.shape = shape
         self.getf = getf
         self.length = length  # z3 Int term
+        # ghost model field for lists of str/bytes: the concatenation of all elements (z3 String term),
+        # maintained by append (cat([])="" / cat(l+[v])=cat(l)+v are the only facts used); None = not tracked
+        self.cat = cat
 
     # ---- pure views -------------------------------------------------------------
     def get(self, i: Any) -> Any:
@@ -644,19 +684,22 @@ class SList:
         return SInt(self.length)
 
     def snapshot(self) -> "SList":
-        return SList(self.shape, self.getf, self.length)
+        return SList(self.shape, self.getf, self.length, self.cat)
 
     # ---- mutation ---------------------------------------------------------------
     def append(self, v: Any) -> None:
         old, n = self.getf, self.length
         self.getf = lambda j: ite(SBool(j == n), v, old(j))
         self.length = n + 1
+        if self.cat is not None:
+            self.cat = z3.Concat(self.cat, v.t if isinstance(v, (SStr, SBytes)) else z3.StringVal(bytes_to_smt(v) if isinstance(v, bytes) else v)) if isinstance(v, (SStr, SBytes, str, bytes)) else None
 
     def insert_at(self, i: Any, v: Any) -> None:
         """``list.insert(i, v)`` for ``0 <= i <= len`` (caller established the range)."""
         old, it = self.getf, _arith(i)
         self.getf = lambda j: ite(SBool(j < it), old(j), ite(SBool(j == it), v, old(j - 1)))
         self.length = self.length + 1
+        self.cat = None
 
     def pop_at(self, i: Any) -> Any:
         """``list.pop(i)`` for ``0 <= i < len``."""
@@ -664,11 +707,13 @@ class SList:
         v = old(it)
         self.getf = lambda j: ite(SBool(j < it), old(j), old(j + 1))
         self.length = self.length - 1
+        self.cat = None
         return v
 
     def set_at(self, i: Any, v: Any) -> None:
         old, it = self.getf, _arith(i)
         self.getf = lambda j: ite(SBool(j == it), v, old(j))
+        self.cat = None
 
     def __repr__(self) -> str:
         return f"SList(len={self.length})"
@@ -690,6 +735,42 @@ def as_slist(x: Any) -> SList:
 
         return SList(shape_of(items[0]), getf, z3.IntVal(len(items)))
     raise Unsupported(f"not a list: {x!r}")
+
+
+# --------------------------------------------------------------------------------------
+# symbolic set (a membership predicate)
+# --------------------------------------------------------------------------------------
+
+
+class SSet:
+    """A set of scalar values given by its membership predicate (z3 term -> z3 Bool)."""
+
+    def __init__(self, shape: Shape, member: Callable[[Any], Any]) -> None:
+        self.shape, self.member = shape, member
+
+    @staticmethod
+    def of_values(shape: Shape, items: list[Any]) -> "SSet":
+        ts = [x.t if isinstance(x, Sym) else (z3.StringVal(x) if isinstance(x, str) else z3.IntVal(x)) for x in items]
+        return SSet(shape, lambda t: z3.Or(*[t == c for c in ts]) if ts else z3.BoolVal(False))
+
+    def has(self, v: Any) -> SBool:
+        t = v.t if isinstance(v, Sym) else (z3.StringVal(v) if isinstance(v, str) else z3.IntVal(v))
+        return SBool(self.member(t))
+
+    def nonempty(self) -> SBool:
+        w = self.shape.fresh("member")
+        if BOUND_K:
+            raise Unsupported("set non-emptiness in bounded mode")
+        return SBool(z3.Exists([w.t], self.member(w.t)))
+
+    def diff(self, o: "SSet") -> "SSet":
+        return SSet(self.shape, lambda t: z3.And(self.member(t), z3.Not(o.member(t))))
+
+    def union(self, o: "SSet") -> "SSet":
+        return SSet(self.shape, lambda t: z3.Or(self.member(t), o.member(t)))
+
+    def inter(self, o: "SSet") -> "SSet":
+        return SSet(self.shape, lambda t: z3.And(self.member(t), o.member(t)))
 
 
 # --------------------------------------------------------------------------------------
